@@ -5,20 +5,35 @@ from translators import tr_c18
 
 PID = "C18"
 CLAIM = True
-MANIFEST_TEXT = ("Lean 4 theorems for ALL strings: the character-level transcription of processPath (path.cc, pass by pass) "
-                 "equals the component-level specification render(denote p); the result is in the documented normal form, "
-                 "denotes the same location, is idempotent and absolute paths never leave the root; prettyPath, "
-                 "pathIndicatesDirectory and concatPaths follow their tables; relativePath concatenated back onto the base "
-                 "denotes the target whenever it reports a result; hasPrefix/hasSuffix/formatString equal their plain "
-                 "definitions for every length.  Each run compiles the current path.cc/stringutility.hh and compares them with "
-                 "the model exhaustively on all strings over {/ . a b} up to length 9 (quick) / 11 (thorough), all pairs up to "
-                 "length 4 / 5, random longer paths, and every format result length 0..2100, with an independent "
-                 "component-resolver oracle deciding the property itself.")
-MANIFEST_NOTE = ("Trusted: Lean kernel (+propext/Classical.choice/Quot.sound), the hand-written model's fidelity (checked by the "
-                 "exhaustive differential run only), harness/driver string encoding, g++/libstdc++/ASan/UBSan, the C library's "
-                 "snprintf (formatString is modelled as 'snprintf into 1000 bytes, else heap' on the ideal text; only the "
-                 "%d/%s/%% subset with flags - 0 and a width is exercised).  Strings containing NUL are outside the model.")
-TECHNIQUE = "Lean 4 proof (char-level model refines component-level spec) + exhaustive differential correspondence with independent resolver oracle"
+MANIFEST_TEXT = ("29 Lean 4 theorems for ALL strings: the character-level transcription of processPath (path.cc, pass by pass) "
+                 "terminates (its '/../' loop leaves through break within |text|+1 iterations) and equals the component-level "
+                 "specification render(denote p); the result is in the documented normal form, denotes the same location, is "
+                 "idempotent and absolute paths never leave the root; prettyPath follows its table and preserves the location; "
+                 "pathIndicatesDirectory and concatPaths (their decision lists are REGENERATED from path.cc on every run) follow "
+                 "their tables; every row of the three example tables in the documentation (re-read from path.hh on every run) "
+                 "is evaluated in the kernel; relativePath is exactly the documented function of the two locations (error iff "
+                 "mixed absolute/relative or more leading '..' in the base; otherwise the longest common list of components "
+                 "removed), its result is sanitised and relative and, concatenated back onto the base, denotes the target; "
+                 "hasPrefix/hasSuffix equal their plain definitions; formatString returns the complete text for every length up "
+                 "to INT_MAX and for ANY stack-buffer size (the size is re-read from stringutility.hh), throws for longer texts "
+                 "and for conversion errors.  Each run compiles the current path.cc/stringutility.hh and compares them with the "
+                 "model exhaustively on all strings over {/ . a b} up to length 9 (quick) / 11 (thorough), all pairs up to length "
+                 "4 / 5, random longer and very long paths and pairs (bytes 0x00-0xff), every format result length around the "
+                 "current buffer size, %d %ld %u %x %c %lc %s arguments, with an independent component-resolver oracle deciding "
+                 "the property itself (including the documented rows, other container types for hasPrefix/hasSuffix, and in the "
+                 "thorough tier the 2 GiB results at INT_MAX-1 / INT_MAX).")
+MANIFEST_NOTE = ("Trusted: Lean kernel (+propext/Classical.choice/Quot.sound), tr_c18.py, the hand-written model's fidelity for the "
+                 "loops of processPath/relativePath and for prettyPath/formatString (checked by the exhaustive differential run "
+                 "only), harness/driver string encoding, g++/libstdc++/ASan/UBSan, the C library's snprintf (formatString is "
+                 "modelled as 'snprintf into the stack buffer, else heap' on the ideal text or conversion error; std::bad_alloc is "
+                 "not modelled).  If a refactoring takes pathIndicatesDirectory/concatPaths/the buffer declaration/the doc "
+                 "tables outside the translator's grammar the translator falls back to its built-in transcription (counted as "
+                 "translator_fallbacks in the evidence) and that item is tied by the differential run only.  Needs "
+                 "fixes/C18_fmt_intmax.patch: the unpatched formatString overflows a signed int for a result of exactly INT_MAX "
+                 "characters (thorough tier: replay 'F 2147483647').")
+TECHNIQUE = ("Lean 4 proof (char-level model refines component-level spec; termination; exact relativePath) + translator for the "
+             "decision lists, buffer size and documentation tables + exhaustive differential correspondence with independent "
+             "resolver oracle")
 TRANSLATORS = [tr_c18.translate]
 HARNESS = dict(
     sources=["cxx_c18.cc"],
@@ -26,18 +41,27 @@ HARNESS = dict(
     libs=[],
     flags=["-Wno-format-security"],
 )
-RULE = ("cases: u = every string over the alphabet {'/', '.', 'a', 'b'} up to length 9 (quick) / 11 (thorough) through "
-        "processPath, prettyPath (3 forms), pathIndicatesDirectory; b = every ordered pair of such strings up to length 4 / 5 "
-        "through concatPaths, relativePath, hasPrefix, hasSuffix; ur/br = seeded random longer paths built from components "
-        "{'', '.', '..', names, names with dots/spaces/other bytes} and related pairs; bl = strings of length 0-3, 998-1002, 2000 "
-        "with prefixes/suffixes/one-character changes; f = formatString with result lengths 0..2100 each, plus extra cases at "
-        "994..1006 and 1990..2010.  distinct = distinct op lines; every case is oracle-checked (non-trivial)")
+RULE = ("cases: docrows = every row of the example tables in the current path.hh; u = every string over the alphabet "
+        "{'/', '.', 'a', 'b'} up to length 9 (quick) / 11 (thorough) through processPath, prettyPath (3 forms), "
+        "pathIndicatesDirectory; b = every ordered pair of such strings up to length 4 / 5 through concatPaths, relativePath, "
+        "hasPrefix, hasSuffix (std::string; the oracle also runs vector/deque/list/string_view); ur/br = seeded random longer "
+        "paths built from components {'', '.', '..', names, names with dots/blanks/upper case/NUL/bytes >= 0x80} and related "
+        "pairs (prefix, suffix, shared leading components, one letter's case flipped, 1 in 40 with a path of 200-3100 "
+        "characters); ul = paths of 200-3100 characters; bl = strings of length 0-3, cap-2..cap+2, 2*cap with "
+        "prefixes/suffixes/one-character changes/NUL; f = formatString with every result length 0..min(2*cap+100, 4200), "
+        "cap-8..cap+8, 2*cap-8..2*cap+8 and random ones there (cap = the stack buffer size read from the current "
+        "stringutility.hh), arguments int/long/unsigned/char/wint_t/const char*, conversion errors; F = widths beyond INT_MAX "
+        "(must throw), 70000 and 3000000, thorough: INT_MAX-1 and INT_MAX.  distinct = distinct op lines; every case is "
+        "oracle-checked (non-trivial)")
 ASSUMPTIONS = [
-    "the Lean model lean/DuneVerif/Model/C18.lean is hand-written; its fidelity to path.cc/stringutility.hh rests on this differential run (exhaustive up to the stated lengths)",
-    "strings are sequences of non-NUL bytes (hasPrefix/hasSuffix take a C string; path functions are byte-oriented)",
-    "formatString is modelled on the ideal formatted text; snprintf itself (libc) is trusted, exercised with %d, %s, %% and the flags '-', '0' and a width",
+    "the loops of processPath and relativePath, prettyPath and formatString are hand-written in lean/DuneVerif/Model/C18.lean; their fidelity to path.cc/stringutility.hh rests on this differential run (exhaustive up to the stated lengths)",
+    "pathIndicatesDirectory, concatPaths, the formatString buffer size and the documentation tables are regenerated from the source by tools/translators/tr_c18.py (fail-soft: outside its grammar the built-in transcription is used and counted in distribution.translator_fallbacks)",
+    "hasPrefix/hasSuffix take the pattern as a C string (up to the first NUL); containers and paths may contain any byte",
+    "formatString is modelled on the ideal formatted text or conversion error; snprintf itself (libc, classic locale) is trusted, exercised with %d %ld %u %x %c %lc %s %% and the flags '-', '0' and a width; std::bad_alloc is not modelled",
+    "results of 2^31-2 and 2^31-1 characters are built in the thorough tier only; for them and for widths beyond INT_MAX only the outcome class (returns/throws) is compared with the model (theorem formatString_outcome), the text by the oracle",
 ]
-TRUSTED = ["g++/libstdc++, ASan/UBSan, libc snprintf", "harness/cxx_c18.cc (resolver oracle, token encoding) + Driver/C18.lean parsing/printing"]
+TRUSTED = ["g++/libstdc++, ASan/UBSan, libc snprintf", "translator tools/translators/tr_c18.py",
+           "harness/cxx_c18.cc (resolver oracle, token encoding) + Driver/C18.lean parsing/printing"]
 
 
 def _count(L):
